@@ -57,9 +57,11 @@ func splitProp(msg, dflt string) (string, string) {
 	return dflt, msg
 }
 
+const maxSteps = 5000
+
 func explorerFor(sc *Scenario, bound int) *vs.Explorer {
 	return &vs.Explorer{
-		Cfg:   vs.Config{FreeTimers: sc.FreeTimers, MaxFires: sc.MaxFires, NumCPU: sc.NumCPU, MaxSteps: 5000},
+		Cfg:   vs.Config{FreeTimers: sc.FreeTimers, MaxFires: sc.MaxFires, NumCPU: sc.NumCPU, MaxSteps: maxSteps},
 		Bound: bound,
 		Prune: true,
 		MaxStates: 12000000,
@@ -74,6 +76,15 @@ func explorerFor(sc *Scenario, bound int) *vs.Explorer {
 // caller is stuck is both "Consume never returns" (C06) and a deadlock (C11).
 func classify(v vs.Violation) ([]string, string) {
 	switch v.Kind {
+	case "stepcap":
+		msg := fmt.Sprintf("livelock: the run does not terminate (still running after %d scheduling steps, 10x the cap); alive: %s", 10*maxSteps, v.Msg)
+		if strings.Contains(v.Msg, "[caller-") {
+			if keyedScenario {
+				return []string{"C06", "C11", "C10"}, msg
+			}
+			return []string{"C06", "C11"}, msg
+		}
+		return []string{"C11"}, msg
 	case "deadlock":
 		if strings.Contains(v.Msg, "[caller-") {
 			if keyedScenario {
@@ -154,9 +165,22 @@ func countProp(vs []WViolation) int {
 
 var keyedScenario bool
 
+// currentScenario is the (sub-)scenario being explored, for the runaway report.
+var currentScenario string
+
+type runawayReport struct {
+	Scenario string `json:"scenario"`
+	vs.Runaway
+}
+
+func runawayMsg(r vs.Runaway) string {
+	return fmt.Sprintf("thread %s never reaches a synchronisation point again (unbounded loop in the processor, stopped after %.0f CPU-seconds of spinning or 12 GB of allocation) after a schedule of %d choices; callers never get a response and shutdown cannot complete", r.Thread, vs.RunawayCPUSeconds, len(r.Choices))
+}
+
 func runOne(sc *Scenario, bound int, start time.Time, budget time.Duration, noprune bool) *WorkerResult {
 	res := &WorkerResult{Scenario: sc.Name, Bound: bound}
 	keyedScenario = len(sc.Keys) > 0 && sc.Limit > 0
+	currentScenario = sc.Name
 	var last *vs.Explorer
 	seen := map[string]bool{}
 	for b := 0; b <= bound; b++ {
@@ -168,6 +192,14 @@ func runOne(sc *Scenario, bound int, start time.Time, budget time.Duration, nopr
 		viols := ex.Explore()
 		last = ex
 		for _, v := range viols {
+			if v.Kind == "stepcap" {
+				// a livelock only if the same schedule is still running at 10x the cap
+				ex10 := explorerFor(sc, b)
+				ex10.Cfg.MaxSteps = 10 * maxSteps
+				if out, _ := ex10.Replay(v.Choices); !out.StepCap {
+					continue
+				}
+			}
 			props, msg := classify(v)
 			key := props[0] + "|" + msg
 			if seen[key] {
@@ -181,6 +213,8 @@ func runOne(sc *Scenario, bound int, start time.Time, budget time.Duration, nopr
 				out, ov := ex.Replay(v.Choices)
 				var got []string
 				switch {
+				case out.StepCap:
+					got = []string{"stepcap"}
 				case out.Deadlock != "":
 					got = []string{"deadlock: " + out.Deadlock}
 				case out.Panic != "":
@@ -193,7 +227,7 @@ func runOne(sc *Scenario, bound int, start time.Time, budget time.Duration, nopr
 				found := false
 				for _, g := range got {
 					_, m := splitProp(g, "")
-					if m == msg || g == msg || strings.HasPrefix(msg, g) || (v.Kind == "panic" && g == "panic") || strings.HasSuffix(msg, g) {
+					if m == msg || g == msg || strings.HasPrefix(msg, g) || (v.Kind == "panic" && g == "panic") || (v.Kind == "stepcap" && g == "stepcap") || strings.HasSuffix(msg, g) {
 						found = true
 					}
 				}
@@ -201,6 +235,9 @@ func runOne(sc *Scenario, bound int, start time.Time, budget time.Duration, nopr
 					stable = false
 				}
 				trace = out.Trace
+				if len(trace) > 300 {
+					trace = append(append(append([]string{}, trace[:150]...), "..."), trace[len(trace)-150:]...)
+				}
 			}
 			for _, prop := range props {
 				res.Violations = append(res.Violations, WViolation{Scenario: sc.Name, Property: prop, Kind: v.Kind, Msg: msg, Choices: v.Choices, Trace: trace, Stable: stable})
@@ -240,7 +277,7 @@ var propScenarios = map[string]*regexp.Regexp{
 	"C06": regexp.MustCompile(`^(D1|D2|D3|D6|D7|SEQ|MS)`),
 	"C09": regexp.MustCompile(`^(D2|D4|D6|T9|SPLIT|SEQ)`),
 	"C10": regexp.MustCompile(`^(D8)`),
-	"C11": regexp.MustCompile(`^(D1|D3|D5|D7|D8|K2)`),
+	"C11": regexp.MustCompile(`^(D1|D3|D5|D6|D7|D8|K2)`),
 	"C18": regexp.MustCompile(`^(D9|D7)`),
 }
 
@@ -314,6 +351,11 @@ func main() {
 			os.Exit(2)
 		}
 		workerProp = *prop
+		vs.OnRunaway = func(r vs.Runaway) {
+			b, _ := json.Marshal(runawayReport{Scenario: currentScenario, Runaway: r})
+			fmt.Println("RUNAWAY " + string(b))
+			os.Exit(3)
+		}
 		r := runWorker(sc, *bound, *budget, *noprune)
 		r.OracleEvals = oracleEvals
 		b, _ := json.Marshal(r)
@@ -395,11 +437,26 @@ func doReplay(path string) int {
 		return 2
 	}
 	ex := explorerFor(sc, 99)
+	if a.Kind == "stepcap" {
+		ex.Cfg.MaxSteps = 10 * maxSteps
+	}
+	vs.OnRunaway = func(r vs.Runaway) {
+		fmt.Println(runawayMsg(r))
+		fmt.Printf("VIOLATION property=%s replay=%s\n", a.Property, path)
+		os.Exit(1)
+	}
 	out, ov := ex.Replay(a.Choices)
+	if len(out.Trace) > 400 {
+		out.Trace = append(out.Trace[:400], "...")
+	}
 	for _, l := range out.Trace {
 		fmt.Println("  ", l)
 	}
 	bad := false
+	if out.StepCap {
+		fmt.Printf("livelock: still running after %d scheduling steps; alive: %s\n", ex.Cfg.MaxSteps, out.StepCapMsg)
+		bad = true
+	}
 	if out.Deadlock != "" {
 		fmt.Println("deadlock:", out.Deadlock)
 		bad = true
@@ -507,6 +564,21 @@ func parent(prop, tier, filter string, boundOverride int, budget time.Duration, 
 					}
 				}
 			}
+			if ee, ok := err.(*exec.ExitError); ok && ee.ExitCode() == 3 {
+				// the product code spins without reaching a scheduling point: no verdict
+				// on any execution of this scenario is possible any more
+				for _, l := range strings.Split(string(outp), "\n") {
+					if strings.HasPrefix(l, "RUNAWAY ") {
+						var rr runawayReport
+						if json.Unmarshal([]byte(l[8:]), &rr) == nil {
+							r = &WorkerResult{Scenario: sc.Name, Bound: b}
+							r.Stats.BudgetHit = true
+							r.Violations = []WViolation{{Scenario: rr.Scenario, Property: prop, Kind: "runaway", Msg: runawayMsg(rr.Runaway), Choices: rr.Choices, Stable: true}}
+							err = nil
+						}
+					}
+				}
+			}
 			if err != nil || r == nil {
 				mu.Lock()
 				harnessErr = true
@@ -581,6 +653,15 @@ func parent(prop, tier, filter string, boundOverride int, budget time.Duration, 
 			a := Artefact{Engine: "bpx", Property: prop, Tier: tier, Scenario: v.Scenario, Kind: v.Kind, Message: v.Msg, Choices: v.Choices, Trace: v.Trace}
 			b, _ := json.MarshalIndent(a, "", " ")
 			os.WriteFile(path, b, 0o644)
+			if v.Kind == "runaway" {
+				// confirm in a fresh process: the same schedule must spin again
+				c := exec.Command(self, "-replay", path)
+				c.Env = append(os.Environ(), "GOMAXPROCS=1")
+				if e, ok := c.Run().(*exec.ExitError); !ok || e.ExitCode() != 1 {
+					fmt.Fprintf(os.Stderr, "HARNESS-ERROR: runaway in %s did not reproduce on replay\n", v.Scenario)
+					return 2
+				}
+			}
 			isKnown := false
 			for _, k := range known {
 				if k.Property == prop && k.Status != "fixed" && k.Key != "" && strings.Contains(v.Scenario+"|"+v.Msg, k.Key) {
